@@ -45,4 +45,12 @@ def debugMap (entries : List (String × Out)) (alt : Bool) : String :=
     else
       "{" ++ ", ".intercalate (entries.map fun (k, v) => k ++ ": " ++ v false) ++ "}"
 
+/-- `DebugList` (what a slice prints as). -/
+def debugList (items : List Out) (alt : Bool) : String :=
+  match items with
+  | [] => "[]"
+  | _ =>
+    if alt then "[\n" ++ String.join (items.map fun v => pad (v true ++ ",\n")) ++ "]"
+    else "[" ++ ", ".intercalate (items.map fun v => v false) ++ "]"
+
 end Educe.Fmt
